@@ -3,8 +3,11 @@
 package vault
 
 import (
+	"encoding/hex"
 	"fmt"
 	"testing"
+
+	"github.com/openbao/openbao/sdk/v2/logical"
 
 	"github.com/openbao/openbao/sdk/v2/helper/verifx"
 	"pgregory.net/rapid"
@@ -116,6 +119,122 @@ func TestVerif_C20_UnsealThreshold(t *testing.T) {
 		}
 		rec.Case(fmt.Sprintf("n=%d,t=%d", n, th), nontrivial, verifx.Digest(n, th, rekeyed, hist), func() any {
 			return map[string]any{"n": n, "t": th, "rekeyed_before": rekeyed, "history": hist, "unsealed_at_end": !tc.c.Sealed()}
+		})
+	})
+}
+
+// TestVerif_C20_RotateThreshold: a root-key rotation (rekey) proceeds only once the configured threshold of distinct
+// valid shares has been supplied - unseal shares for a Shamir seal, recovery shares for a stored-key seal.
+func TestVerif_C20_RotateThreshold(t *testing.T) {
+	rec := verifx.NewRecorder("C20", "rotate-threshold", "a core with a Shamir seal (n shares, threshold t) or the stored-key test seal with n recovery shares (threshold t) starts a root-key rotation through sys/rotate/root/init and is fed a generated sequence of shares through sys/rotate/root/update: valid distinct shares, duplicates, corrupted shares, shares with a wrong nonce; model = distinct valid shares since the rotation was (re)initialised; oracle: the rotation completes exactly when the t-th distinct valid share is supplied, never earlier, duplicates and wrong nonces do not count; after an invalid share the harness re-initialises the rotation; non-trivial = a duplicate, corrupted or wrong-nonce share was supplied before completion, or t >= 2")
+	defer rec.Flush()
+	rapid.Check(t, func(rt *rapid.T) {
+		shamir := fairIndex(rt, "seal", 2) == 0
+		n := 1 + fairIndex(rt, "n", 5)
+		th := 1
+		if n > 1 {
+			th = 2 + fairIndex(rt, "t", n-1)
+		}
+		tc, err := bootCore(t, coreOpts{shamir: shamir, shares: n, threshold: th, transactional: true})
+		if err != nil {
+			t.Fatalf("harness: %v", err)
+		}
+		defer tc.shutdown()
+		auth := tc.keys
+		if !shamir {
+			auth = tc.recoveryKeys
+		}
+		if len(auth) != n {
+			t.Fatalf("harness: expected %d authorising shares, got %d", n, len(auth))
+		}
+		var hist []string
+		initRotation := func() string {
+			tc.req(logical.DeleteOperation, "sys/rotate/root/init", tc.root, nil)
+			r := tc.req(logical.UpdateOperation, "sys/rotate/root/init", tc.root, map[string]any{"secret_shares": 1, "secret_threshold": 1})
+			if !r.ok() || r.resp == nil {
+				t.Fatalf("harness: rotate init: %v", r)
+			}
+			nonce, _ := r.resp.Data["nonce"].(string)
+			if nonce == "" {
+				t.Fatalf("harness: rotate init returned no nonce: %v", r.resp.Data)
+			}
+			return nonce
+		}
+		nonce := initRotation()
+		supplied := map[int]bool{}
+		nontrivial := th >= 2
+		done := false
+		steps := 3 + fairIndex(rt, "steps", 10)
+		for i := 0; i < steps && !done; i++ {
+			kind := []string{"valid", "valid", "valid", "duplicate", "flipped", "wrong-nonce"}[fairIndex(rt, "kind", 6)]
+			idx := fairIndex(rt, "share", n)
+			key := TestKeyCopy(auth[idx])
+			useNonce := nonce
+			switch kind {
+			case "duplicate":
+				found := false
+				for j := range auth {
+					if supplied[j] {
+						idx, found = j, true
+						break
+					}
+				}
+				if !found {
+					continue
+				}
+				key = TestKeyCopy(auth[idx])
+			case "flipped":
+				key[fairIndex(rt, "pos", len(key)-1)] ^= 0x41
+			case "wrong-nonce":
+				useNonce = "00000000-0000-0000-0000-000000000000"
+			}
+			r := tc.req(logical.UpdateOperation, "sys/rotate/root/update", tc.root, map[string]any{"key": hex.EncodeToString(key), "nonce": useNonce})
+			complete := false
+			if r.ok() && r.resp != nil {
+				complete, _ = r.resp.Data["complete"].(bool)
+			}
+			hist = append(hist, fmt.Sprintf("%s(share %d) -> complete=%v %v", kind, idx, complete, r))
+			detail := map[string]any{"seal": map[bool]string{true: "shamir", false: "stored-key with recovery shares"}[shamir], "n": n, "t": th, "history": hist}
+			if kind != "valid" || supplied[idx] {
+				nontrivial = true
+			}
+			switch kind {
+			case "valid", "duplicate":
+				already := supplied[idx]
+				if r.ok() {
+					supplied[idx] = true
+				}
+				if complete && len(supplied) < th {
+					rec.Violation(rt, "rotation-completed-below-threshold", detail, "the rotation completed after only %d distinct valid shares (threshold %d): %v", len(supplied), th, hist)
+				}
+				if already && complete {
+					rec.Violation(rt, "rotation-completed-by-duplicate-share", detail, "a repeated share completed the rotation: %v", hist)
+				}
+				if !complete && !already && r.ok() && len(supplied) >= th {
+					rec.Violation(rt, "rotation-not-completed-at-threshold", detail, "%d distinct valid shares supplied (threshold %d) but the rotation did not complete: %v", len(supplied), th, hist)
+				}
+				if !r.ok() && !already {
+					rec.Violation(rt, "valid-share-rejected", detail, "a valid, not yet supplied share was rejected: %v", hist)
+				}
+				if complete {
+					done = true
+				}
+			case "wrong-nonce":
+				if complete || r.ok() {
+					rec.Violation(rt, "share-accepted-with-wrong-nonce", detail, "a share supplied with a wrong nonce was accepted: %v", hist)
+				}
+			case "flipped":
+				if complete {
+					rec.Violation(rt, "rotation-completed-with-invalid-share", detail, "the rotation completed right after a corrupted share: %v", hist)
+				}
+				// the corrupted share may have entered the progress: start over
+				nonce = initRotation()
+				supplied = map[int]bool{}
+				hist = append(hist, "re-init")
+			}
+		}
+		rec.Case(fmt.Sprintf("shamir=%v,t=%d", shamir, th), nontrivial, verifx.Digest(shamir, n, th, hist), func() any {
+			return map[string]any{"shamir": shamir, "n": n, "t": th, "history": hist, "completed": done}
 		})
 	})
 }
